@@ -169,6 +169,8 @@ func runC16(c *Ctx) {
 	defer c16FallbackScope(c)
 	defer c16MatcherOnOwnLabel(c)
 	defer c16KeyIsTheText(c, "C16-R3")
+	defer c16JoinsOnlyGrow(c, "C16-R1")
+	defer c16OneCachePerGroup(c, "C16-R3")
 	defer c14HashIsADigest(c, "C16-R3")
 	defer c16AlertMetricNames(c, chk)
 	// (a) pointers to a providing entry are set only under a kind-specific, error-free, name-equality guard
@@ -654,4 +656,118 @@ func c16AlertMetricNames(c *Ctx, chk *FuncInfo) {
 	})
 	c.Check(bad == "" && nEq >= 2, R, "Check:the metric name is only compared by equality", badPos, itoa(nEq)+" equality tests",
 		"the selector's metric name is tested with `"+bad+"` (or is no longer compared with the alert metric names at all): a metric that merely resembles ALERTS / ALERTS_FOR_STATE takes the alert shortcut and is never looked up, so a series that was never present is not reported")
+}
+
+// c16JoinsOnlyGrow: every vector the query joins with is probed by promql/series
+// because it is listed in Source.Joins / Source.Unless of the source it is
+// joined to. Those lists only grow: every store is `x.Joins = append(x.Joins, …)`
+// (the same for Unless). A store of a freshly built list drops what the operand
+// already carried — the selectors of a nested join on that side are then never
+// probed, and a metric that never existed there goes unreported.
+func c16JoinsOnlyGrow(c *Ctx, R string) {
+	up := c.P.Pkg("internal/parser/utils")
+	if up == nil {
+		return
+	}
+	info := up.TypesInfo
+	n := 0
+	for _, fi := range c.P.AllFuncs() {
+		if fi.Pkg != up || fi.Decl.Body == nil || c.P.IsTestFile(fi.Decl.Pos()) {
+			continue
+		}
+		seq := 0
+		ast.Inspect(fi.Decl.Body, func(nd ast.Node) bool {
+			as, ok := nd.(*ast.AssignStmt)
+			if !ok || len(as.Lhs) != len(as.Rhs) {
+				return true
+			}
+			for i, l := range as.Lhs {
+				sel, isSel := ast.Unparen(l).(*ast.SelectorExpr)
+				if !isSel || fieldOwner(info, sel) != qSource || (sel.Sel.Name != "Joins" && sel.Sel.Name != "Unless") {
+					continue
+				}
+				n++
+				seq++
+				grows := false
+				if call, isCall := ast.Unparen(as.Rhs[i]).(*ast.CallExpr); isCall && exprStr(call.Fun) == "append" && len(call.Args) >= 1 && samePath(info, call.Args[0], sel) {
+					grows = true
+				}
+				// through a local that starts as the list itself and is only appended to
+				if id, isID := ast.Unparen(as.Rhs[i]).(*ast.Ident); isID {
+					defs := allDefs(info, fi.Decl.Body, id)
+					grows = len(defs) > 0
+					startsAsField := false
+					for _, d := range defs {
+						switch {
+						case samePath(info, d, sel):
+							startsAsField = true
+						default:
+							call, isCall := ast.Unparen(d).(*ast.CallExpr)
+							if !isCall || exprStr(call.Fun) != "append" || len(call.Args) < 1 || (objOf(info, call.Args[0]) != info.Uses[id] && !samePath(info, call.Args[0], sel)) {
+								grows = false
+							}
+							if isCall && len(call.Args) >= 1 && samePath(info, call.Args[0], sel) {
+								startsAsField = true
+							}
+						}
+					}
+					grows = grows && startsAsField
+				}
+				c.Check(grows, R, fi.Obj.Name()+":"+sel.Sel.Name+" only grows#"+itoa(seq), as.Pos(), "append to itself",
+					"`"+exprStr(l)+"` is replaced by `"+exprStr(as.Rhs[i])+"` instead of being appended to: joins the operand already carried (a nested binary operation on that side) are dropped, their selectors are never probed and a metric that was never present there is not reported")
+			}
+			return true
+		})
+	}
+	c.Check(n >= 4, R, "stores to Source.Joins / Source.Unless enumerated", token.NoPos, itoa(n), "fewer than 4")
+}
+
+// c16OneCachePerGroup: cached answers belong to one failover group — one set of
+// request headers, one tenant. What FailoverGroup.StartWorkers hands to its
+// upstreams as Prometheus.cache is a cache made right there by newQueryCache; a
+// cache that comes from anywhere else (another group "talking to the same
+// URI") serves one tenant's series counts to another, and a series that is
+// present is reported missing (or the reverse).
+func c16OneCachePerGroup(c *Ctx, R string) {
+	prom := c.P.Pkg("internal/promapi")
+	if prom == nil {
+		return
+	}
+	info := prom.TypesInfo
+	n := 0
+	for _, fi := range c.P.AllFuncs() {
+		if fi.Pkg != prom || fi.Decl.Body == nil || c.P.IsTestFile(fi.Decl.Pos()) {
+			continue
+		}
+		ast.Inspect(fi.Decl.Body, func(nd ast.Node) bool {
+			as, ok := nd.(*ast.AssignStmt)
+			if !ok || len(as.Lhs) != len(as.Rhs) {
+				return true
+			}
+			for i, l := range as.Lhs {
+				if !fieldSel(info, l, "internal/promapi.Prometheus", "cache") {
+					continue
+				}
+				n++
+				fresh := func(e ast.Expr) bool {
+					call, isCall := ast.Unparen(e).(*ast.CallExpr)
+					return isCall && isCallTo(info, call, "internal/promapi.newQueryCache")
+				}
+				okStore := fresh(as.Rhs[i])
+				if id, isID := ast.Unparen(as.Rhs[i]).(*ast.Ident); isID {
+					defs := allDefs(info, fi.Decl.Body, id)
+					okStore = len(defs) > 0
+					for _, d := range defs {
+						if !fresh(d) {
+							okStore = false
+						}
+					}
+				}
+				c.Check(okStore, R, strings.TrimPrefix(fi.Name, "internal/promapi.")+":upstreams get the cache made for their own group", as.Pos(), "newQueryCache(…) of this call",
+					"Prometheus.cache is filled with `"+exprStr(as.Rhs[i])+"`, which is not (only) a cache created here for this group: groups that differ in headers, tenant or tags then answer each other's questions from one cache")
+			}
+			return true
+		})
+	}
+	c.Check(n >= 1, R, "stores to Prometheus.cache enumerated", token.NoPos, itoa(n), "none found")
 }
